@@ -626,6 +626,10 @@ func init() {
 		Assumptions: []string{seqAssumption, "a crash is modelled as 'the process restarts from the last snapshot that reached the store'; C09 covers what can be on disk"},
 		Cases:       func(t string) int { return tierN(t, 600, 14000) },
 		RunCase: func(c *CaseCtx) *CaseResult {
+			if c.Idx%50 == 18 {
+				// saves that fail because a job variable cannot be encoded leave the last good snapshot in place
+				return simpleCase(c, drv.RunUnencodableSaveThenRestartCase(int64(c.Idx/50), c.TmpDir), 5)
+			}
 			if c.Idx%4 == 3 {
 				h := drv.PreparedStoreCase(c.Seed, c.TmpDir)
 				res := &CaseResult{Idx: c.Idx, Events: h.Events, Inconclusive: h.Inconclusive, Evaluations: h.Evaluations["C10"], Findings: h.Findings}
